@@ -148,7 +148,9 @@ fn scenarios_of(prop: &str, tier: Tier) -> Vec<HScn> {
                 if !q {
                     let mut c = full_cfg(3);
                     c.terminal_targets = false;
-                    v.push(hscn("par", y, keep, c, Some(if keep { 0 } else { 1 }), 48));
+                    // three actions with a racing deviation only on the small workflows
+                    let small = y == W6 || y == W7 || y == W8 || y == W9B;
+                    v.push(hscn("par", y, keep, c, Some(if keep || !small { 0 } else { 1 }), 48));
                 }
             }
             if !q {
